@@ -1,3 +1,4 @@
 import GdcVerif.Driver.Main
 import GdcVerif.Driver.Dct
-def main : IO Unit := Drv.run [Drv.Dct.step?]
+import GdcVerif.Driver.JpegLossless
+def main : IO Unit := Drv.run [Drv.Dct.step?, Drv.JpegLossless.step?]
